@@ -1547,7 +1547,7 @@ fn run(opts: &Opts, acc: &mut Acc) {
         "every boundary-pool constant of every value type and every error-producing constant expression, alone and inside a list, \
          a map, a branch, a macro body and a comparison; one program per bytecode-producing construct; 5 bindings each",
     );
-    let n = opts.tier.pick(60_000, 1_500_000);
+    let n = opts.tier.pick(200_000, 5_000_000);
     random_genomes(acc, opts, "generated", n, 400, |gn, a| check_generated(gn, a));
     // which variants never occurred (a generator bug if a variant the compiler can emit is missing)
     let missing_bc: Vec<&str> = ALL_BC.iter().copied().filter(|n| !acc.classes.contains_key(&format!("bc:{}", n))).collect();
